@@ -179,7 +179,12 @@ pub fn judge(hier: &Hier, q: &(Name, RecordType), honest_answer: &Message, out: 
                 }
                 let published = is_published || honest_answer.all_sections().any(|h| h.name == r.owner && h.record_type() == r.rtype && rdata_bytes(h) == r.rdata);
                 let rel = signers.iter().map(|s| relation(s, &r.owner, pz_origin)).find(|x| *x != "own-zone").unwrap_or(if signers.is_empty() { "unknown" } else { "own-zone" });
-                if hier.status_zone(pz) == Status::Insecure {
+                if hier.status_zone(pz) == Status::Bogus {
+                    j.findings.push(Finding {
+                        clause: format!("secure-in-zone-without-matching-ds:{rel}"),
+                        what: format!("{} {} returned Secure although no supported DS of its zone {} matches a key of that zone", r.owner, r.rtype, pz_origin),
+                    });
+                } else if hier.status_zone(pz) == Status::Insecure {
                     j.findings.push(Finding {
                         clause: format!("secure-in-insecure-zone:{rel}"),
                         what: format!("{} {} returned Secure although its zone {} has no chain of trust in the published hierarchy", r.owner, r.rtype, pz_origin),
@@ -211,7 +216,7 @@ pub fn judge(hier: &Hier, q: &(Name, RecordType), honest_answer: &Message, out: 
                 // allowed when some zone that publishes the record (or, for unpublished data, the
                 // zone that would hold it) is genuinely insecure
                 // (judged on answer records; an accepted negative answer is judged as a whole below)
-                if r.sec == 0 && cand.iter().all(|z| hier.status_zone(*z) == Status::Secure) {
+                if r.sec == 0 && cand.iter().all(|z| hier.status_zone(*z) != Status::Insecure) {
                     let rel = if all_signers.iter().any(|s| relation(s, &r.owner, pz_origin) == "signer-not-enclosing-owner") { "rrsig-signer-not-enclosing-owner" } else { "answer" };
                     j.findings.push(Finding {
                         clause: format!("insecure-for-signed-zone:{rel}"),
@@ -283,7 +288,7 @@ pub fn judge(hier: &Hier, q: &(Name, RecordType), honest_answer: &Message, out: 
             "insecure-authority" | "authority-rrsig-signer-not-enclosing-owner" => "negative-insecure",
             _ => "negative-unproven",
         });
-        if qstatus == Status::Secure {
+        if qstatus != Status::Insecure {
             if truth_positive {
                 j.findings.push(Finding {
                     clause: format!("denial-accepted-for-published-data:{pc}"),
